@@ -108,6 +108,8 @@ pub struct Tables {
 
 impl Tables {
     pub fn new() -> Tables {
+        // sensitivity aid (never set by a registered check): evaluate Mux2 with its data pins swapped
+        let swap_mux = std::env::var("MON_SYNTH_SABOTAGE").as_deref() == Ok("swap_mux");
         let mut t = vec![[X; 81]; ALL_KINDS.len()];
         for (ki, &kind) in ALL_KINDS.iter().enumerate() {
             let n = arity_by_name(kind);
@@ -130,6 +132,9 @@ impl Tables {
                     }
                     for (k, &xi) in xs.iter().enumerate() {
                         b[xi] = (m >> k) & 1 == 1;
+                    }
+                    if swap_mux && kind == CellKind::Mux2 {
+                        b.swap(1, 2);
                     }
                     if cell_fn(kind, &b[..n]) {
                         seen1 = true;
